@@ -56,8 +56,8 @@ type Query struct {
 }
 
 func leaf(label, op, val string) *Expr { return &Expr{Term: &Term{label, op, val}} }
-func and(a, b *Expr) *Expr              { return &Expr{Op: "&&", L: a, R: b} }
-func or(a, b *Expr) *Expr               { return &Expr{Op: "||", L: a, R: b} }
+func and(a, b *Expr) *Expr             { return &Expr{Op: "&&", L: a, R: b} }
+func or(a, b *Expr) *Expr              { return &Expr{Op: "||", L: a, R: b} }
 
 // renderParen: every non-leaf operand is parenthesised.
 func (e *Expr) renderParen() string {
@@ -308,7 +308,7 @@ type selResult struct {
 
 type oracle struct {
 	rules    Rules
-	portions int                  // > 0: complex path with that many portions (only used with rules.PortionFrom)
+	portions int                   // > 0: complex path with that many portions (only used with rules.PortionFrom)
 	hashMod  func(uint64, int) int // portion of a trace id
 }
 
